@@ -26,6 +26,9 @@ pub enum HAct {
     ReadAll(usize),
     /// a structural operation on the compound file
     Comp(Op),
+    /// flush and drop the handle, then open_stream(same path) again: Ok and bound to the stream the
+    /// model has at that path, or NotFound if it has none
+    Reopen(usize),
 }
 
 #[derive(Clone, Debug, Serialize, Deserialize)]
@@ -150,7 +153,7 @@ pub fn run_case(c: &HandleHist) -> Option<(String, String)> {
             // calls on a handle whose stream was removed: results are not judged, effects on others are
             let target = match act {
                 HAct::WriteAt0(h, _) | HAct::Append(h, _) | HAct::Flush(h) | HAct::SetLen(h, _) | HAct::ReadAll(h) => Some(*h),
-                HAct::Comp(_) => None,
+                HAct::Comp(_) | HAct::Reopen(_) => None,
             };
             if let Some(h) = target {
                 if hs[h].dead {
@@ -219,6 +222,28 @@ pub fn run_case(c: &HandleHist) -> Option<(String, String)> {
                     }
                     if hd.s.len() != want.len() as u64 {
                         return Err(bad(format!("handle len() {} but stream holds {}", hd.s.len(), want.len())));
+                    }
+                }
+                HAct::Reopen(h) => {
+                    let path = hs[*h].path.clone();
+                    if hs[*h].dead {
+                        let _ = hs[*h].s.flush();
+                    } else {
+                        hs[*h].s.flush().map_err(|e| bad(format!("flush before reopening failed: {}", e)))?;
+                    }
+                    let exists = crate::names::normalise(&path).ok().and_then(|p| model.root.find(&p)).map(|n| n.kind == Kind::Stream).unwrap_or(false);
+                    match live.comp.open_stream(&path) {
+                        Ok(snew) => {
+                            if !exists {
+                                return Err(bad(format!("open_stream({}) returned Ok although no stream exists at that path", path)));
+                            }
+                            hs[*h] = H { s: ops::NoDropOnPanic::new(snew), path, dirty: false, dead: false };
+                        }
+                        Err(e) => {
+                            if exists {
+                                return Err(bad(format!("open_stream({}) failed: {}", path, e)));
+                            }
+                        }
                     }
                 }
                 HAct::Comp(op) => {
@@ -427,6 +452,50 @@ pub fn explore_seeded(ctx: &Ctx, version: u16, seed: &str, big: usize, depth: us
                 None => {
                     if depth > 1 {
                         rec(ctx, version, &st, &held, &alpha, &mut seq, depth, &mut cnt, 3);
+                    }
+                }
+            }
+            cnt
+        })
+        .collect();
+    let mut stats = HStats { start_states: 1, handle_choices: 1, sequences: 0, actions: 0 };
+    for (a, b) in counts {
+        stats.sequences += a;
+        stats.actions += b;
+    }
+    stats
+}
+
+/// Equal leaf names under two parents, with handles re-opened by path in the middle of the history:
+/// a directory entry stores only the leaf name, and freed entries are reused.
+pub fn explore_namesakes(ctx: &Ctx, version: u16, depth: usize) -> HStats {
+    let setup: Vec<Op> = vec![Op::CreateStorage("/p".into()), Op::CreateStorage("/q".into()), Op::CreateStream("/p/data".into()), Op::CreateStream("/c".into())];
+    let held: Vec<String> = vec!["/p/data".into(), "/c".into()];
+    let st = StartState { setup, streams: vec!["/p/data".into(), "/c".into()] };
+    let alpha = vec![
+        HAct::WriteAt0(0, 10),
+        HAct::Flush(0),
+        HAct::Reopen(0),
+        HAct::WriteAt0(1, 10),
+        HAct::Comp(Op::RemoveStream("/p/data".into())),
+        HAct::Comp(Op::Rewrite("/q/data".into(), 50)),
+        HAct::Comp(Op::Rewrite("/p/data".into(), 70)),
+        HAct::Comp(Op::RemoveStream("/q/data".into())),
+    ];
+    let counts: Vec<(u64, u64)> = alpha
+        .par_iter()
+        .map(|first| {
+            let mut cnt = (1u64, 1u64);
+            let mut seq = vec![first.clone()];
+            let case = HandleHist { version, setup: st.setup.clone(), held: held.clone(), actions: seq.clone(), fill: 0 };
+            match run_case(&case) {
+                Some((class, msg)) => {
+                    let core = msg.splitn(2, ": ").nth(1).unwrap_or(&msg).to_string();
+                    ctx.report(Violation { sig: format!("{}:{}", class, sig_norm(&core).chars().take(90).collect::<String>()), class, msg, replay: json!({"kind": "handles", "handles": case}) });
+                }
+                None => {
+                    if depth > 1 {
+                        rec(ctx, version, &st, &held, &alpha, &mut seq, depth, &mut cnt, 0);
                     }
                 }
             }
